@@ -374,6 +374,14 @@ def run(prog: Program, res: Result) -> None:  # noqa: PLR0912, PLR0915
                 res.fail("C11.R4", file=sa_mod.relpath, line=v.node.lineno, qualname=v.qualname, construct=f"{outer}._visit no longer calls {piece}", message=f"the analyser visitor does not consult {piece}", what=what)
         # tags are recorded for every tag/lines token except the transparent block wrappers
         what = f"{outer}._visit records a tag for every node with a tag/lines token"
+        # order: a tag's own expressions are classified before the names it binds enter the scope (`assign x = x | default: 1` reads the outer x)
+        idx_expr = next((i for i, st in enumerate(v.node.body) if isinstance(st, ast.For) and norm(st.iter) == "node.expressions()"), None)
+        idx_scope = next((i for i, st in enumerate(v.node.body) if isinstance(st, ast.For) and norm(st.iter) == "node.template_scope()"), None)
+        what_o = f"{outer}._visit analyses node.expressions() before node.template_scope() names are added to the scope"
+        if idx_expr is not None and idx_scope is not None and idx_expr < idx_scope:
+            res.ok("C11.R4", f"{sa_mod.relpath}:{v.node.lineno} {v.qualname}", what_o, f"statement {idx_expr} before statement {idx_scope}")
+        else:
+            res.fail("C11.R4", file=sa_mod.relpath, line=v.node.lineno, qualname=v.qualname, construct=f"{v.qualname}: template_scope names enter the scope before the tag's own expressions are analysed", message=f"{v.qualname} adds the names a tag binds (node.template_scope()) to the scope before it classifies the tag's own expressions: the right-hand side of `{{% assign x = x | default: 'a' %}}` reads the global x at render time, but x is already local for the analyser and is not reported as a global", what=what_o)
         # token classes that stand for a `{% … %}` tag that does something: every marker-carrying class except the output statement and comments
         tokmod = prog.mod("liquid2/token.py")
         tag_kinds = {c.name for c in tokmod.classes.values() if any(isinstance(s_, ast.AnnAssign) and isinstance(s_.target, ast.Name) and s_.target.id == "wc" for s_ in c.node.body)} - {"OutputToken", "CommentToken", "BlockCommentToken", "InlineCommentToken"}
